@@ -109,20 +109,30 @@ def gen_cases(ctx):
             if cand:
                 rng.choice(cand)["tearDownFaults"] = [[999999, 2]]
         cases.append(cw.Case(w, o))
-    # children that die
-    for i in range(16 if ctx.quick() else 300):
+    cases += death_cases(ctx, 16 if ctx.quick() else 300)
+    return cases
+
+
+def death_cases(ctx, n):
+    """children that die: at the OS level (os._exit, SIGKILL, SIGSEGV) in any test phase or layer hook, or through
+    Python (SystemExit, MemoryError, KeyboardInterrupt out of a layer hook)"""
+    rng = ctx.rng
+    cases = []
+    for i in range(n):
         w = worlds.gen_world(rng, n_layers=rng.choice([2, 3]), tests_per_layer=(1, 3), kinds=["pass"], p_fault=0.0,
                              p_write=0.0)
         victims = [t for t in w["tests"] if w["layers"][t["layer"]]["kind"] != "unit"]
         how = rng.choice(["exit0", "exit3", "sigkill", "segv"])
-        if victims and rng.random() < 0.7:
+        if victims and rng.random() < 0.55:
             t = rng.choice(victims)
             rng.choice([t["setUp"], t["body"], t["tearDown"]])["exc"] = how
         else:
             cand = [l for l in w["layers"] if l["kind"] != "unit" and l["setUp"] and l["tearDown"]]
             if not cand:
                 continue
-            rng.choice(cand)[rng.choice(["dieInSetUp", "dieInTearDown"])] = rng.choice(["exit0", "exit3"])
+            # (also through Python: exceptions the runner lets through - SystemExit, MemoryError, KeyboardInterrupt)
+            rng.choice(cand)[rng.choice(["dieInSetUp", "dieInTearDown"])] = rng.choice(
+                ["exit0", "exit3", "pyexit0", "pyexit3", "pymemory", "pyinterrupt"])
         o = {"verbose": rng.choice([0, 1]), "processes": rng.choice([2, 3])}
         cases.append(cw.Case(w, o, "child-dies"))
     return cases
